@@ -540,6 +540,10 @@ Definition bl_step (limit : nat -> nat) (ls : barrel (A := nat)) (op : bl_op)
               | Ok v => (ls, BVal v)
               | Raise e => (ls, BErr e)
               end
+  | BGetNeg k => match bl_get ls (- Z.of_nat k)%Z with
+                 | Ok v => (ls, BVal v)
+                 | Raise e => (ls, BErr e)
+                 end
   | BLen => (ls, BLenIs (bl_len ls))
   | BList => (ls, BItems (bl_items ls))
   end.
